@@ -111,7 +111,7 @@ fn ecrts19(ctx: &mut Ctx, id: u64, lim: u64, tmax: u64, cmax: u64, pmax: u64, ch
         w: Vec<u64>,
     }
     // a third of the unchained callbacks get a cumulative-cost curve (any n consecutive instances cost <= w[n])
-    let mut gen_w = |rng: &mut rand::rngs::StdRng, cmax: u64| -> Vec<u64> {
+    let gen_w = |rng: &mut rand::rngs::StdRng, cmax: u64| -> Vec<u64> {
         if rng.gen_bool(0.33) {
             let mut w = crate::gen::cost_prefix(rng, cmax);
             w.truncate(3);
@@ -227,7 +227,7 @@ fn ecrts19(ctx: &mut Ctx, id: u64, lim: u64, tmax: u64, cmax: u64, pmax: u64, ch
 }
 
 /// RTSS'21 workloads (C05): self-consistent bound vectors of the rr / bw analyses
-fn rtss21(ctx: &mut Ctx, id: u64, lim: u64, tmax: u64, cmax: u64, pmax: u64) {
+fn rtss21(ctx: &mut Ctx, id: u64, lim: u64, _tmax: u64, cmax: u64, pmax: u64) {
     let supply = gen_supply(&mut ctx.rng, pmax);
     let n = ctx.rng.gen_range(2..=3usize);
     let mut wl = vec![];
